@@ -513,7 +513,7 @@ enum How {
 enum Style {
     /// Split halves, both directions at once; `close_first` = which end is dropped first (the
     /// other end's reader must then see end-of-stream after its last message).
-    Duplex { a2b: Vec<SendOp>, b2a: Vec<SendOp>, close_first: usize },
+    Duplex { a2b: Vec<SendOp>, b2a: Vec<SendOp>, close_first: usize, recv_cancel: CancelPlan },
     /// Unsplit connections, strict alternation: call (size, …) answered by reply (…, size).
     PingPong { rounds: Vec<(usize, usize)> },
     /// A zlink sender whose sends are abandoned at pending polls; the peer is a raw descriptor.
@@ -627,7 +627,14 @@ fn gen_plan(t: &mut Tape, thorough: bool) -> Plan {
                 let a2b = gen_ops_b(t, n_max, class, sb, &mut budget, max_len, true);
                 let back = if t.draw(2) == 0 { class } else { 0 };
                 let b2a = gen_ops_b(t, n_max, back, sb, &mut budget, max_len, true);
-                Style::Duplex { a2b, b2a, close_first: t.draw(2) }
+                // receivers may abandon a pending receive and start over (cancel safety of receive
+                // is C07's subject; here it runs over the real transports and with big messages)
+                let recv_cancel = match t.draw(6) {
+                    0 => CancelPlan::Prob(1, 3),
+                    1 => CancelPlan::EveryKth(1 + t.draw(3)),
+                    _ => CancelPlan::Never,
+                };
+                Style::Duplex { a2b, b2a, close_first: t.draw(2), recv_cancel }
             }
         };
         conns.push(ConnPlan { how, sndbuf, style });
@@ -650,7 +657,7 @@ fn describe_plan(p: &Plan, rt: &str) -> Value {
             "made_by": format!("{:?}", c.how),
             "so_sndbuf": c.sndbuf,
             "style": match &c.style {
-                Style::Duplex { a2b, b2a, close_first } => json!({"duplex": {"a_to_b": describe_ops(a2b), "b_to_a": describe_ops(b2a), "closes_first": if *close_first == 0 { "a" } else { "b" }}}),
+                Style::Duplex { a2b, b2a, close_first, recv_cancel } => json!({"duplex": {"a_to_b": describe_ops(a2b), "b_to_a": describe_ops(b2a), "closes_first": if *close_first == 0 { "a" } else { "b" }, "receivers_abandon_pending_receives": format!("{recv_cancel:?}")}}),
                 Style::PingPong { rounds } => json!({"ping_pong_call_reply_pads": rounds}),
                 Style::CancelRaw { ops, plan } => json!({"abandoned_sends_vs_raw_peer": {"ops": describe_ops(ops), "cancel": format!("{plan:?}")}}),
             }
@@ -723,17 +730,40 @@ async fn receiver<Rh: zlink_core::connection::socket::ReadHalf>(
     lens: Vec<usize>,
     expect_eof_after: Option<Rc<dyn Fn() -> bool>>,
     fail: Rc<dyn Fn(&str, String)>,
+    plan: CancelPlan,
 ) {
+    let mut pending_polls = 0u64;
     for (seq, len) in lens.iter().enumerate() {
-        match rc.receive_call::<Msg<'_>>().await {
-            Ok(call) => {
-                let Msg::Msg { conn: c, dir: d, seq: s, pad: p } = call.method();
-                let ok = *c == conn && *d == dir && *s == seq as u32 && p.len() == *len && **p == *pad(*len, salt(conn, dir, seq as u32));
+        let res = loop {
+            match abandonable(&world, rc.receive_call::<Msg<'_>>(), &plan, &mut pending_polls).await {
+                Some(r) => break r.map(|call| {
+                    let Msg::Msg { conn: c, dir: d, seq: s, pad: p } = call.method();
+                    (*c, *d, *s, p.len(), **p == *pad(*len, salt(conn, dir, seq as u32)), call.oneway() || call.more())
+                }),
+                None => {
+                    world.borrow_mut().stat("fault.receive_abandoned_and_restarted");
+                    // the new receive starts at a later poll (a timeout fired, the caller came back)
+                    let mut yielded = false;
+                    std::future::poll_fn(|_| {
+                        if yielded {
+                            Poll::Ready(())
+                        } else {
+                            yielded = true;
+                            Poll::Pending
+                        }
+                    })
+                    .await;
+                }
+            }
+        };
+        match res {
+            Ok((c, d, s, plen, same, flagged)) => {
+                let ok = c == conn && d == dir && s == seq as u32 && plen == *len && same;
                 world.borrow_mut().ev("b.recv", (conn as u64) * 2 + dir as u64, seq as u64);
-                if !ok || call.oneway() || call.more() {
+                if !ok || flagged {
                     fail(
                         "C19/received-sequence-differs",
-                        format!("connection {conn} direction {dir}: message {seq} (pad {len}) arrived as conn={c} dir={d} seq={s} pad-length={}{}", p.len(), if p.len() == *len { " with different content" } else { "" }),
+                        format!("connection {conn} direction {dir}: message {seq} (pad {len}) arrived as conn={c} dir={d} seq={s} pad-length={plen}{}", if plen == *len { " with different content" } else { "" }),
                     );
                     return;
                 }
@@ -774,7 +804,7 @@ fn spawn_conn<B: Backend>(world: &World, sh: &Rc<Shared<B::Sock>>, k: usize, cp:
     };
     let mut acts = Vec::new();
     match &cp.style {
-        Style::Duplex { a2b, b2a, close_first } => {
+        Style::Duplex { a2b, b2a, close_first, recv_cancel } => {
             let b = b.unwrap();
             let (ar, aw) = a.split();
             let (br, bw) = b.split();
@@ -807,11 +837,12 @@ fn spawn_conn<B: Backend>(world: &World, sh: &Rc<Shared<B::Sock>>, k: usize, cp:
                     None
                 };
                 let f = failer(sh);
+                let plan = recv_cancel.clone();
                 acts.push(Act {
                     class: 2,
                     tag: (k as u64) * 8 + 2 + dir as u64,
                     kind: Some(ActKind::Fut(Box::pin(async move {
-                        receiver(world, rc, conn, dir, lens_of(&ops), eof, f).await;
+                        receiver(world, rc, conn, dir, lens_of(&ops), eof, f, plan).await;
                         sh2.parts_dropped.borrow_mut()[k][end] += 1;
                     }))),
                 });
@@ -1159,7 +1190,7 @@ fn run_tier_b(world: &World, smol: bool, thorough: bool) -> Verdict {
         let mut w = world.borrow_mut();
         w.cfg = Cfg::plain();
         let plan = gen_plan(&mut w.tape, thorough);
-        w.step_cap = 400_000 + (plan.total_bytes as u64) * 2;
+        w.step_cap = 40_000 + (plan.total_bytes as u64) / 4;
         if w.want_sample {
             w.scenario = Some(describe_plan(&plan, if smol { "smol" } else { "tokio" }));
         }
@@ -1191,6 +1222,16 @@ fn run_tier_b(world: &World, smol: bool, thorough: bool) -> Verdict {
     };
     let r = if smol { block_on_local(scenario::<SmolB>(world, &plan)) } else { RT.with(|rt| rt.block_on(scenario::<TokioB>(world, &plan))) };
     r?;
+    {
+        // how much of its step budget the run used (per mille), to keep the cap honest
+        let mut w = world.borrow_mut();
+        let used = w.steps * 1_000_000 / w.step_cap.max(1);
+        let k = w.stats.entry("tierB_step_budget_used_ppm_summed_over_runs").or_insert(0);
+        *k += used;
+        if used > 20_000 {
+            w.stat("probe.tierB_run_used_over_2_percent_of_step_cap");
+        }
+    }
     Ok(world.borrow_mut().scenario.take())
 }
 
